@@ -329,6 +329,25 @@ func (r *maskResult) transport(m *fieldmask.FieldMask, desc *thrift_reflection.T
 			r.Notes = append(r.Notes, "Marshal differs from MarshalJSON")
 		}
 	}
+	// the text handed to the caller must stay what it was while OTHER masks are marshalled (a history:
+	// marshal A, keep the bytes, marshal B and C, use A's bytes)
+	s1, s3 := string(j1), string(j3)
+	r.guard("MarshalJSON(other)", func() {
+		for _, ps := range [][]string{{"$"}, nil} {
+			if o, err := fieldmask.NewFieldMask(desc, ps...); err == nil && o != nil {
+				o.MarshalJSON()
+				fieldmask.Marshal(o)
+			}
+		}
+		if bo, err := (fieldmask.Options{BlackListMode: true}).NewFieldMask(desc, "$"); err == nil && bo != nil {
+			bo.MarshalJSON()
+			fieldmask.Marshal(bo)
+		}
+	})
+	if string(j1) != s1 || string(j3) != s3 {
+		r.Stable = false
+		r.Notes = append(r.Notes, "bytes returned by MarshalJSON/Marshal changed after other masks were marshalled")
+	}
 	image := func(stage string, read func() (*fieldmask.FieldMask, error)) *maskImage {
 		im := &maskImage{}
 		var n *fieldmask.FieldMask
